@@ -532,6 +532,54 @@ fn check_shape(shape: &[usize]) -> ShapeResult {
     res
 }
 
+/// Invariants at the ends of the index <-> position bijection for an array of zero-sized elements
+/// (no memory needed, so shapes with 2^32 and more elements can be checked).
+fn check_huge(sh: &[usize]) -> Result<(), String> {
+    let sh = sh.to_vec();
+    let total: usize = sh.iter().product();
+
+    let arr: Array<()> = Array::from_element((), sh.clone());
+    let d = sh.len();
+    let last: Vec<usize> = sh.iter().map(|n| n - 1).collect();
+    let mut it = arr.iter_indices();
+    if it.len() != total {
+        return Err(format!("iter_indices().len() = {}, expected {total}", it.len()));
+    }
+    let first = it.next().map(|i| i.to_vec());
+    if first != Some(vec![0; d]) {
+        return Err(format!("first index {first:?}"));
+    }
+    // the item at flat position p (after one next(): nth(p - 1))
+    let p = sh[d - 1] * 3 + 2;
+    let mut expect = vec![0usize; d];
+    let mut rest = p;
+    for a in (0..d).rev() {
+        expect[a] = rest % sh[a];
+        rest /= sh[a];
+    }
+    let got = it.nth(p - 1).map(|i| i.to_vec());
+    if got != Some(expect.clone()) {
+        return Err(format!("index at flat position {p} is {got:?}, expected {expect:?}"));
+    }
+    if it.len() != total - p - 1 {
+        return Err(format!("len() after {} items = {}, expected {}", p + 1, it.len(), total - p - 1));
+    }
+    if arr.get(last.clone()).is_none() || arr.get(vec![0; d]).is_none() {
+        return Err("get() of the first / last index is None".into());
+    }
+    for a in 0..d {
+        let mut over = vec![0usize; d];
+        over[a] = sh[a];
+        if arr.get(over.clone()).is_some() {
+            return Err(format!("get({over:?}) is Some for shape {sh:?}"));
+        }
+        if arr.get_axis(Axis(a), sh[a]).is_some() || arr.get_axis(Axis(a), sh[a] - 1).is_none() {
+            return Err(format!("get_axis(Axis({a}), ..) bounds wrong for shape {sh:?}"));
+        }
+    }
+    Ok(())
+}
+
 pub fn run(tier: Tier) -> i32 {
     let mut rep = Report::new("C19", tier, "model_checking");
     let (max_d, max_len) = tier.pick((5, 5), (6, 5));
@@ -560,48 +608,7 @@ pub fn run(tier: Tier) -> i32 {
             n += 1;
             let total: usize = shape.iter().product();
             let sh = shape.clone();
-            let r = catch(move || -> Result<(), String> {
-                let arr: Array<()> = Array::from_element((), sh.clone());
-                let d = sh.len();
-                let last: Vec<usize> = sh.iter().map(|n| n - 1).collect();
-                let mut it = arr.iter_indices();
-                if it.len() != total {
-                    return Err(format!("iter_indices().len() = {}, expected {total}", it.len()));
-                }
-                let first = it.next().map(|i| i.to_vec());
-                if first != Some(vec![0; d]) {
-                    return Err(format!("first index {first:?}"));
-                }
-                // the item at flat position p (after one next(): nth(p - 1))
-                let p = sh[d - 1] * 3 + 2;
-                let mut expect = vec![0usize; d];
-                let mut rest = p;
-                for a in (0..d).rev() {
-                    expect[a] = rest % sh[a];
-                    rest /= sh[a];
-                }
-                let got = it.nth(p - 1).map(|i| i.to_vec());
-                if got != Some(expect.clone()) {
-                    return Err(format!("index at flat position {p} is {got:?}, expected {expect:?}"));
-                }
-                if it.len() != total - p - 1 {
-                    return Err(format!("len() after {} items = {}, expected {}", p + 1, it.len(), total - p - 1));
-                }
-                if arr.get(last.clone()).is_none() || arr.get(vec![0; d]).is_none() {
-                    return Err("get() of the first / last index is None".into());
-                }
-                for a in 0..d {
-                    let mut over = vec![0usize; d];
-                    over[a] = sh[a];
-                    if arr.get(over.clone()).is_some() {
-                        return Err(format!("get({over:?}) is Some for shape {sh:?}"));
-                    }
-                    if arr.get_axis(Axis(a), sh[a]).is_some() || arr.get_axis(Axis(a), sh[a] - 1).is_none() {
-                        return Err(format!("get_axis(Axis({a}), ..) bounds wrong for shape {sh:?}"));
-                    }
-                }
-                Ok(())
-            });
+            let r = catch(move || check_huge(&sh));
             let verdict = match r {
                 Ok(x) => x,
                 Err(p) => Err(format!("panic: {p}")),
@@ -668,6 +675,17 @@ pub fn run(tier: Tier) -> i32 {
 
 pub fn replay(case: &J) -> Option<Vec<String>> {
     let shape = case.get("shape")?.as_usizes()?;
+    if case.get("kind").and_then(|k| k.as_str()) == Some("c19-huge") {
+        let sh = shape.clone();
+        return Some(match catch(move || check_huge(&sh)) {
+            Ok(Ok(())) => vec![],
+            Ok(Err(e)) => vec![format!("C19|lib|huge-array :: {e}")],
+            Err(p) => vec![format!("C19|lib|huge-array|panic :: {p}")],
+        });
+    }
+    if shape.iter().product::<usize>() > 100_000 {
+        return None;
+    }
     let r = check_shape(&shape);
     Some(r.viols.into_iter().map(|(k, w, _)| format!("{k} :: {w}")).collect())
 }
